@@ -230,7 +230,9 @@ class SymReal(SymNum):
     _isreal = True
 
     def __float__(self):
-        return float(self.g.realize(self.e))
+        # the code under test asks for a double: representative values that are *not* exactly representable come
+        # first, so that a lossy conversion of an exact quantity is seen to be lossy
+        return float(self.g.realize(self.e, inexact_first=True))
 
     def __round__(self, n=None):
         return round(float(self), n)
@@ -577,7 +579,7 @@ class Engine:
         self.solver.add(cond if mv else z3.Not(cond))
         return mv
 
-    def realize(self, expr):
+    def realize(self, expr, inexact_first=False):
         expr = z3.simplify(expr)
         if z3.is_int_value(expr):
             return expr.as_long()
@@ -605,6 +607,13 @@ class Engine:
                 self._add(expr != _n(x))
             m = self._ensure_model()
             v = _zval(m.eval(expr, model_completion=True))
+            if inexact_first and isinstance(v, (int, Fraction)) and float(v) == v:
+                for delta in (Fraction(1, 3), Fraction(1, 7)):
+                    cand = Fraction(v) + delta
+                    if cand not in excluded and self._check(expr == _n(cand)) == z3.sat:
+                        v = cand
+                        self.model = None
+                        break
             self.solver.add(expr == _n(v))
             try:
                 if not z3.is_true(m.eval(expr == _n(v), model_completion=True)):
